@@ -1,6 +1,75 @@
 // V-transfer: the overlapping LZ77 copy routine of the decoder, unbounded in buffer size, match length, positions.
-// Proved here: no panic (all six assert!s, every index, no overflow), length preserved, and the frame
-// (every byte outside [out_pos, out_pos+match_len) keeps its value). The copy semantics itself is in K-applymatch.
+// Proved: no panic (all six assert!s, every index, no overflow), length preserved, and the FUNCTIONAL contract:
+// the buffer afterwards equals lz_copy(old buffer, source_pos, out_pos, mask, match_len), where lz_copy is the
+// RFC 1951 meaning of a match (byte i of the copy reads index (src+i)&mask of the buffer as already updated by the
+// bytes before it) -- which also gives the frame (bytes outside [out_pos, out_pos+match_len) unchanged).
+
+pub open spec fn lz_copy(buf: Seq<u8>, src: int, dst: int, mask: usize, n: nat) -> Seq<u8>
+    decreases n
+{
+    if n == 0 { buf } else {
+        let prev = lz_copy(buf, src, dst, mask, (n - 1) as nat);
+        prev.update(dst + n - 1, prev[(((src + n - 1) as usize) & mask) as int])
+    }
+}
+
+proof fn lemma_lz_len(buf: Seq<u8>, src: int, dst: int, mask: usize, n: nat)
+    ensures lz_copy(buf, src, dst, mask, n).len() == buf.len(),
+    decreases n
+{
+    if n > 0 { lemma_lz_len(buf, src, dst, mask, (n - 1) as nat); }
+}
+
+// bytes outside the destination range are untouched (frame), by induction
+proof fn lemma_lz_frame(buf: Seq<u8>, src: int, dst: int, mask: usize, n: nat, k: int)
+    requires 0 <= k < buf.len(), !(dst <= k < dst + n), 0 <= dst, dst + n <= buf.len(),
+    ensures lz_copy(buf, src, dst, mask, n)[k] == buf[k],
+    decreases n
+{
+    if n > 0 {
+        lemma_lz_len(buf, src, dst, mask, (n - 1) as nat);
+        lemma_lz_frame(buf, src, dst, mask, (n - 1) as nat, k);
+    }
+}
+
+// distance-1 copy without wrap-around == run of the byte before the destination
+proof fn lemma_lz_run(buf: Seq<u8>, dst: int, mask: usize, n: nat)
+    requires
+        1 <= dst, dst + n <= buf.len(), buf.len() <= 0x7FFF_FFFF_FFFF_FFFF,
+        forall|x: usize| x < buf.len() ==> #[trigger] (x & mask) == x,
+    ensures
+        forall|k: int| 0 <= k < buf.len() ==> #[trigger] lz_copy(buf, dst - 1, dst, mask, n)[k] == (if dst <= k < dst + n { buf[dst - 1] } else { buf[k] }),
+        lz_copy(buf, dst - 1, dst, mask, n).len() == buf.len(),
+    decreases n
+{
+    lemma_lz_len(buf, dst - 1, dst, mask, n);
+    if n > 0 {
+        lemma_lz_run(buf, dst, mask, (n - 1) as nat);
+        lemma_lz_len(buf, dst - 1, dst, mask, (n - 1) as nat);
+        let x: usize = (dst - 1 + n - 1) as usize;
+        assert(x & mask == x);
+    }
+}
+
+proof fn lemma_lz_step(buf: Seq<u8>, src: int, dst: int, mask: usize, j: nat)
+    ensures
+        lz_copy(buf, src, dst, mask, j + 1) == lz_copy(buf, src, dst, mask, j).update(dst + j, lz_copy(buf, src, dst, mask, j)[(((src + j) as usize) & mask) as int]),
+        lz_copy(buf, src, dst, mask, j + 1).len() == buf.len(),
+{
+    lemma_lz_len(buf, src, dst, mask, j + 1);
+    assert(lz_copy(buf, src, dst, mask, j + 1) == lz_copy(buf, src, dst, mask, j).update(dst + (j + 1) - 1, lz_copy(buf, src, dst, mask, j)[(((src + (j + 1) - 1) as usize) & mask) as int]));
+}
+proof fn lemma_and_le(x: usize, m: usize) ensures x & m <= m { assert(x & m <= m) by (bit_vector); }
+proof fn lemma_and_max(x: usize) ensures x & 0xFFFF_FFFF_FFFF_FFFFusize == x { assert(x & 0xFFFF_FFFF_FFFF_FFFFusize == x) by (bit_vector); }
+proof fn lemma_and_pow2(x: usize, m: usize)
+    requires m < 0xFFFF_FFFF_FFFF_FFFFusize, m & ((m + 1) as usize) == 0, x <= m,
+    ensures x & m == x
+{ assert(m < 0xFFFF_FFFF_FFFF_FFFFusize && m & ((m + 1) as usize) == 0 && x <= m ==> x & m == x) by (bit_vector); }
+// under the function's precondition, an index below the buffer length is its own masked value
+proof fn lemma_nowrap(x: usize, m: usize, len: int)
+    requires x < len, m == usize::MAX || (m < usize::MAX && m + 1 == len && m & ((m + 1) as usize) == 0),
+    ensures x & m == x
+{ if m == usize::MAX { lemma_and_max(x); } else { lemma_and_pow2(x, m); } }
 
 //@extract fn transfer from miniz_oxide/src/inflate/core.rs
 //@  contract
@@ -8,42 +77,108 @@
         old(out_slice)@.len() <= 0x7FFF_FFFF_FFFF_FFFF,   // every Rust slice (trusted language invariant)
         out_pos + match_len <= old(out_slice)@.len(),
         (out_buf_size_mask == usize::MAX && source_pos < out_pos)
-            || (out_buf_size_mask < usize::MAX && out_buf_size_mask + 1 == old(out_slice)@.len() && source_pos <= out_buf_size_mask),
+            || (out_buf_size_mask < usize::MAX && out_buf_size_mask + 1 == old(out_slice)@.len()
+                && out_buf_size_mask & ((out_buf_size_mask + 1) as usize) == 0 && source_pos <= out_buf_size_mask),
     ensures
+        final(out_slice)@ =~= lz_copy(old(out_slice)@, source_pos as int, out_pos as int, out_buf_size_mask, match_len as nat),
         final(out_slice)@.len() == old(out_slice)@.len(),
         forall|k: int| 0 <= k < old(out_slice)@.len() && !(out_pos <= k < out_pos + match_len) ==> final(out_slice)@[k] == old(out_slice)@[k],
 //@  before "let source_diff = if source_pos > out_pos {"
-    let ghost src0 = source_pos;
-    let ghost dst0 = out_pos;
+    let ghost src0: int = source_pos as int;
+    let ghost dst0: int = out_pos as int;
+    let ghost mask = out_buf_size_mask;
     let ghost old_out = out_slice@;
     let ghost len0 = out_slice@.len();
     let ghost quads: int = (match_len as int / 4) * 4;
     assert(match_len >> 2usize == match_len / 4usize) by (bit_vector);
     assert(match_len & 3usize == match_len % 4usize) by (bit_vector);
     assert(quads <= match_len && match_len - quads == match_len as int % 4);
+    proof {
+        // frame for the final result, for every k (used for the third ensures)
+        assert forall|k: int| 0 <= k < len0 && !(dst0 <= k < dst0 + match_len) implies lz_copy(old_out, src0, dst0, mask, match_len as nat)[k] == old_out[k] by {
+            lemma_lz_frame(old_out, src0, dst0, mask, match_len as nat, k);
+        }
+        lemma_lz_len(old_out, src0, dst0, mask, match_len as nat);
+    }
+//@  after "out_slice[out_pos..end].fill(init);"
+        proof {
+            assert(src0 == dst0 - 1);
+            assert forall|x: usize| x < len0 implies #[trigger] (x & mask) == x by { lemma_nowrap(x, mask, len0 as int); }
+            lemma_lz_run(old_out, dst0, mask, quads as nat);
+            assert(out_slice@ =~= lz_copy(old_out, src0, dst0, mask, quads as nat));
+        }
 //@  loop 1
             invariant
                 out_slice@.len() == len0, len0 == old_out.len(), len0 <= 0x7FFF_FFFF_FFFF_FFFF,
-                dst0 <= out_pos, out_pos <= dst0 + quads, quads <= match_len, dst0 + match_len <= len0,
+                0 <= dst0, 0 <= src0, dst0 <= out_pos, out_pos <= dst0 + quads, quads <= match_len, dst0 + match_len <= len0,
                 quads % 4 == 0, (out_pos - dst0) % 4 == 0,
                 end_pos <= dst0 + quads, end_pos + 3 <= len0 || end_pos == 0,
                 source_pos - src0 == out_pos - dst0, src0 < dst0, dst0 - src0 >= 4,
-                forall|k: int| 0 <= k < len0 && !(dst0 <= k < dst0 + match_len) ==> out_slice@[k] == old_out[k],
+                mask == out_buf_size_mask,
+                mask == usize::MAX || (mask < usize::MAX && mask + 1 == len0 && mask & ((mask + 1) as usize) == 0),
+                out_slice@ =~= lz_copy(old_out, src0, dst0, mask, (out_pos - dst0) as nat),
             decreases dst0 + quads - out_pos,
+//@  before "out_slice.copy_within(source_pos..=source_pos + 3, out_pos);"
+            let ghost j: nat = (out_pos - dst0) as nat;
+            let ghost cur = out_slice@;
+//@  after "out_slice.copy_within(source_pos..=source_pos + 3, out_pos);"
+            proof {
+                lemma_lz_step(old_out, src0, dst0, mask, j); lemma_lz_step(old_out, src0, dst0, mask, j + 1);
+                lemma_lz_step(old_out, src0, dst0, mask, j + 2); lemma_lz_step(old_out, src0, dst0, mask, j + 3);
+                lemma_nowrap((src0 + j) as usize, mask, len0 as int); lemma_nowrap((src0 + j + 1) as usize, mask, len0 as int);
+                lemma_nowrap((src0 + j + 2) as usize, mask, len0 as int); lemma_nowrap((src0 + j + 3) as usize, mask, len0 as int);
+                let s1 = lz_copy(old_out, src0, dst0, mask, j + 1);
+                let s2 = lz_copy(old_out, src0, dst0, mask, j + 2);
+                let s3 = lz_copy(old_out, src0, dst0, mask, j + 3);
+                let s4 = lz_copy(old_out, src0, dst0, mask, j + 4);
+                assert(s1 =~= cur.update(dst0 + j, cur[src0 + j]));
+                assert(s2 =~= s1.update(dst0 + j + 1, cur[src0 + j + 1]));
+                assert(s3 =~= s2.update(dst0 + j + 2, cur[src0 + j + 2]));
+                assert(s4 =~= s3.update(dst0 + j + 3, cur[src0 + j + 3]));
+                assert(out_slice@ =~= s4);
+            }
 //@  loop 2
             invariant
                 out_slice@.len() == len0, len0 == old_out.len(), len0 <= 0x7FFF_FFFF_FFFF_FFFF,
-                dst0 <= out_pos, out_pos <= dst0 + quads, quads <= match_len, dst0 + match_len <= len0,
+                0 <= dst0, 0 <= src0, dst0 <= out_pos, out_pos <= dst0 + quads, quads <= match_len, dst0 + match_len <= len0,
                 quads % 4 == 0, (out_pos - dst0) % 4 == 0,
                 end_pos <= dst0 + quads, end_pos + 3 <= len0 || end_pos == 0,
-                source_pos - src0 == out_pos - dst0,
+                source_pos - src0 == out_pos - dst0, 0 <= src0 <= len0,
+                mask == out_buf_size_mask,
                 (out_buf_size_mask == usize::MAX && src0 < dst0) || (out_buf_size_mask < usize::MAX && out_buf_size_mask + 1 == len0 && src0 <= out_buf_size_mask),
-                forall|k: int| 0 <= k < len0 && !(dst0 <= k < dst0 + match_len) ==> out_slice@[k] == old_out[k],
+                out_slice@ =~= lz_copy(old_out, src0, dst0, mask, (out_pos - dst0) as nat),
             decreases dst0 + quads - out_pos,
 //@  before "assert!(out_pos + 3 < out_slice.len());"
-            assert(forall|x: usize| #![auto] x & out_buf_size_mask <= out_buf_size_mask) by { assert(forall|x: usize, m: usize| #![auto] x & m <= m) by (bit_vector); }
-            assert(forall|x: usize| #![auto] x & 0xFFFF_FFFF_FFFF_FFFFusize == x) by (bit_vector);
+            let ghost j: nat = (out_pos - dst0) as nat;
+            let ghost cur = out_slice@;
+            assert(out_pos + 3 < len0);
+            assert(source_pos as int == src0 + (out_pos - dst0));
+            assert(source_pos as int + 4 <= 2 * len0);
+            proof {
+                lemma_and_le(source_pos, mask); lemma_and_le((source_pos + 1) as usize, mask); lemma_and_le((source_pos + 2) as usize, mask); lemma_and_le((source_pos + 3) as usize, mask);
+                lemma_and_max(source_pos); lemma_and_max((source_pos + 1) as usize); lemma_and_max((source_pos + 2) as usize); lemma_and_max((source_pos + 3) as usize);
+            }
+//@  after "out_slice[out_pos + 3] = out_slice[(source_pos + 3) & out_buf_size_mask];"
+            proof {
+                lemma_lz_step(old_out, src0, dst0, mask, j); lemma_lz_step(old_out, src0, dst0, mask, j + 1);
+                lemma_lz_step(old_out, src0, dst0, mask, j + 2); lemma_lz_step(old_out, src0, dst0, mask, j + 3);
+                assert(out_slice@ =~= lz_copy(old_out, src0, dst0, mask, j + 4));
+            }
 //@  before "match match_len & 3 {"
-    assert(forall|x: usize| #![auto] x & out_buf_size_mask <= out_buf_size_mask) by { assert(forall|x: usize, m: usize| #![auto] x & m <= m) by (bit_vector); }
-    assert(forall|x: usize| #![auto] x & 0xFFFF_FFFF_FFFF_FFFFusize == x) by (bit_vector);
+    proof {
+        lemma_and_le(source_pos, mask); lemma_and_le((source_pos + 1) as usize, mask); lemma_and_le((source_pos + 2) as usize, mask);
+        lemma_and_max(source_pos); lemma_and_max((source_pos + 1) as usize); lemma_and_max((source_pos + 2) as usize);
+        assert(out_pos == dst0 + quads);
+        assert(source_pos == src0 + quads);
+        let q = quads as nat;
+        lemma_lz_step(old_out, src0, dst0, mask, q); lemma_lz_step(old_out, src0, dst0, mask, q + 1); lemma_lz_step(old_out, src0, dst0, mask, q + 2);
+    }
 //@end
+
+// vacuity guard: the precondition of transfer is satisfiable (this proof fn must FAIL)
+proof fn canary_transfer_pre(len: int, source_pos: usize, out_pos: usize, match_len: usize, mask: usize)
+    requires
+        len <= 0x7FFF_FFFF_FFFF_FFFF, out_pos + match_len <= len,
+        (mask == usize::MAX && source_pos < out_pos)
+            || (mask < usize::MAX && mask + 1 == len && mask & ((mask + 1) as usize) == 0 && source_pos <= mask),
+{ assert(false); }
